@@ -202,7 +202,7 @@ var mutations = []mutDef{
 	{"multisig-missing-dummy", "multisig", 1, 1}, {"nullfail-nonempty-invalid-sig", "not", 1, 5}, {"valid-sig-under-not", "checksig-not", 1, 1},
 	{"codesep-ignored-by-signer", "codesep", 1, 2}, {"cltv-operand", "cltv", 14, 6}, {"cltv-final-sequence", "cltv", 1, 1},
 	{"csv-operand", "csv", 14, 6}, {"csv-version-1", "csv", 2, 1}, {"csv-sequence-disabled", "csv", 1, 1},
-	{"minimalif-operand", "ifelse", 12, 5}, {"hashlock-wrong-preimage", "hashlock", 1, 1},
+	{"minimalif-operand", "ifelse", 12, 5}, {"hashlock-wrong-preimage", "hashlock", 1, 1}, {"hashlock-preimage-size", "hashlock", 4, 3},
 	{"scriptsig-nonminimal-push", "scriptsig", 21, 4}, {"scriptsig-not-pushonly", "scriptsig", 10, 3}, {"scriptsig-extra-item", "scriptsig", 1, 2},
 	{"unexpected-witness", "scriptsig", 3, 3}, {"p2sh-redeem-push-malleated", "p2sh", 4, 4}, {"p2sh-hash-mismatch", "p2sh", 20, 1},
 	{"witness-program-mismatch", "wsh", 32, 2}, {"native-witness-nonempty-scriptsig", "native-witness", 4, 3}, {"witness-empty", "witness", 1, 1},
@@ -352,11 +352,14 @@ func makeSpend(run *vlib.Run, i int, nSpends int) *spend {
 	case x < 62:
 		t := pickTemplate(r)
 		m := pickMutation(r, t)
-		if m != nil {
-			g.mut, g.arg = m.name, r.Intn(m.args)
-			if m.name == "der" && m.args > 1000 {
-				g.arg += 1000
-			}
+		if m == nil {
+			sp := t.build(g)
+			sp.Family = "tmpl"
+			return sp
+		}
+		g.mut, g.arg = m.name, r.Intn(m.args)
+		if m.name == "der" && m.args > 1000 {
+			g.arg += 1000
 		}
 		sp := t.build(g)
 		sp.Family = "mut"
@@ -386,7 +389,7 @@ func (g *gctx) buildLimits() *spend {
 	var prog []byte
 	var init [][]byte
 	name := ""
-	switch k := r.Intn(13); k {
+	switch k := r.Intn(14); k {
 	case 0: // stack + altstack size
 		n := []int{998, 999, 1000, 1001, 1002}[r.Intn(5)]
 		alt := 0
@@ -607,6 +610,23 @@ func (g *gctx) buildLimits() *spend {
 		}
 		prog = cat(prog, []byte{refscript.OP_DEPTH}, pushN(int64(left)), []byte{refscript.OP_EQUALVERIFY}, rep([]byte{refscript.OP_DROP}, left), []byte{refscript.OP_1})
 		name = "pick-roll"
+	case 13: // size of an initial stack element (witness item / scriptSig push)
+		n := []int{519, 520, 521, 522, 1000}[r.Intn(5)]
+		name = fmt.Sprintf("input-item-size/%d", n)
+		init = [][]byte{r.Bytes(n)}
+		switch r.Intn(3) {
+		case 0:
+			prog = cat([]byte{refscript.OP_SIZE}, pushN(int64(n)), []byte{refscript.OP_EQUALVERIFY, refscript.OP_DROP, refscript.OP_1})
+		case 1:
+			prog = cat([]byte{refscript.OP_SHA256}, push(sha256b(init[0])), []byte{refscript.OP_EQUAL})
+		case 2:
+			prog = []byte{refscript.OP_DROP, refscript.OP_1}
+		}
+		if r.Chance(1, 3) {
+			init = append([][]byte{{1}}, init...)
+			prog = cat(prog, []byte{refscript.OP_VERIFY})
+		}
+		ctx = []string{"p2wsh", "tapscript", "p2sh-p2wsh", "bare"}[r.Intn(4)]
 	case 12: // CHECKMULTISIG with its two counts in edge encodings
 		n := []int{0, 1, 2, 3, 20}[r.Intn(5)]
 		m := 0
